@@ -338,7 +338,7 @@ def nnf_decomposable(nnf, idx, memo):
     return r
 
 
-def work(p):
+def work(p, modes=("maxsat", "semiring")):
     src = render(p)
     res = {"src": src, "p": p}
 
@@ -435,6 +435,8 @@ def work(p):
         return out
 
     for name, fn in (("maxsat", maxsat), ("semiring", semiring)):
+        if name not in modes:
+            continue
         try:
             res[name] = pl.with_timeout(fn, 60)
         except BaseException as e:  # noqa
@@ -444,10 +446,13 @@ def work(p):
     return res
 
 
-def shrink(p, bad):
+def shrink(p, bad, budget_s=15.0):
+    """Greedy structural shrinking keeping `bad(program)` true, for at most budget_s seconds."""
     import copy
+    import time
+    t_end = time.time() + budget_s
     changed = True
-    while changed:
+    while changed and time.time() < t_end:
         changed = False
         cands = []
         for i in range(len(p["evidence"])):
@@ -487,6 +492,8 @@ def shrink(p, bad):
                 del q["pads"][i]
                 cands.append(q)
         for q in cands:
+            if time.time() > t_end:
+                break
             try:
                 if bad(q):
                     p = q
@@ -542,7 +549,7 @@ def judge_mode(res, mode):
 
 def bad_pred(mode, klass):
     def bad(q):
-        v = judge_mode(work(q), mode)
+        v = judge_mode(work(q, (mode,)), mode)
         return v[0] == "violation" and v[2] == klass
     return bad
 
